@@ -5,10 +5,12 @@ CONSTANTS URLS = {"A","B","C","D"}
  Parse <- cParse
  MaxThr = 6
  Prog <- cProg
+ CacheInit <- cCache
  defaultInitValue = "dflt"
 INVARIANT NoRaise
 INVARIANT Transparent
 INVARIANT SameCached
 INVARIANT CacheSafe
+INVARIANT NeverServesStale
 INVARIANT Progress
 CHECK_DEADLOCK FALSE
